@@ -1866,6 +1866,8 @@ class C15(ValProp):
             out.append(F('prop', 'in-range slices [0:0],[0:n],[0:1],[n:n],[n/2:n],[0:n/2],[1:n-1] disagree with indexing', py['p.slices'], 'all 1'))
         if 's.obj' in mo and py.get('p.objjson') != mo['s.obj']:
             out.append(F('prop', 'read via object export (to_obj, as compact JSON)', py.get('p.objjson'), mo['s.obj']))
+        if 's.obj' in mo and 'i.objtree' in mo and mo['i.objtree'] != mo['s.obj']:
+            out.append(F('model', 'i.objtree (to_obj through the iterators of the model: ObjTreeLaws.toObjTree_repr)', mo['i.objtree'], mo['s.obj']))
         if mo['i.read'] != v:
             out.append(F('model', 'i.read', mo['i.read'], v))
         if mo.get('i.iter') != v:
@@ -1922,6 +1924,8 @@ class C16(ValProp):
             out.append(F('prop', 'a second import (after the results of earlier imports were mutated) differs from the original', py.get('p.obj2'), mo['s.root']))
         if 's.obj' in mo and py.get('p.objjson') != mo['s.obj']:
             out.append(F('prop', 'exported object shape', py.get('p.objjson'), mo['s.obj']))
+        if 's.obj' in mo and 'i.objtree' in mo and mo['i.objtree'] != mo['s.obj']:
+            out.append(F('model', 'i.objtree (to_obj through the iterators of the model: ObjTreeLaws.toObjTree_repr)', mo['i.objtree'], mo['s.obj']))
         if py.get('p.objrev') != '%s/%s' % (mo['s.root'], mo['s.root']):
             out.append(F('prop', 'import of the exported object with every dict in the opposite key order / after a JSON dump with sorted keys', py.get('p.objrev'), mo['s.root']))
         if 'i.fromobj' in mo and mo['i.fromobj'] != show(case[2]):
@@ -3309,6 +3313,131 @@ class C20(Prop):
         if int(py.get('p.maxask', '0')) > 1:
             out.append(F('prop', 'a node asked the source for the same child more than once', py.get('p.maxask'), '<=1'))
         return out
+
+
+# --- container class hierarchies (Rmk/Impl/Fields.lean, ClassTree.lean; driver / pyimpl case `inh`) -----------------------
+
+def _inh_flat(c):
+    """generator-side copy of `fields()` (only used to drop hierarchies without any public field)"""
+    d = {}
+    for b in c[1][1:]:
+        d.update(_inh_flat(b))
+    for a in c[2:]:
+        if a[0][0] != '_':
+            d[a[0]] = a[1]
+    return d
+
+
+def inh_cases(g, n):
+    r = g.rng
+    out = []
+    pool = ['u8', 'u16', 'u64', 'bool', 'u256', ['list', 'u8', 3], ['list', 'u16', 40], ['Bv', 3], ['Bv', 32], ['Bv', 33], ['bl', 9], ['bv', 12],
+            ['vec', 'u16', 2], ['vec', 'u16', 17], ['cont', 'u8', 'u32'], ['union', 'none', 'u16'], ['Bl', 5], ['list', ['Bl', 4], 3],
+            ['cont', 'u8', ['list', 'u8', 4]], ['vec', ['bl', 5], 2]]
+    names = ['a', 'b', 'c', 'd', 'e', '_p', '_q', 'x_']
+    while len(out) < n:
+        tys = []
+        for t in r.sample(pool, r.choice([2, 3, 4])):
+            tys.append(t)
+        vals = [g.val(t, 4) for t in tys]
+
+        def cls(depth):
+            nb = 0 if depth == 0 else r.choice([0, 1, 1, 1, 2, 2, 3])
+            ann = [[nm, r.randrange(len(tys))] for nm in r.sample(names, r.choice([0, 1, 2, 2, 3]))]
+            return ['cls', ['bases'] + [cls(depth - 1) for _ in range(nb)]] + ann
+        c = cls(r.choice([1, 2, 2, 3]))
+        def buildable(c):
+            return all(buildable(b) for b in c[1][1:]) and bool(_inh_flat(c))
+        if not buildable(c) and r.random() < 0.9:
+            continue    # (a class without any field is refused by the class statement: kept only now and then)
+        out.append(show(['inh', ['types'] + tys, ['vals'] + vals, c]))
+    return out
+
+
+_INH_CHECKS = {
+    'C01': ('droot', 'dflt_root', 'root', 'reads'),
+    'C02': ('bytes', 'dflt_bytes', 'stream'),
+    'C03': ('decode',),
+    'C11': ('sizes', 'vbl'),
+    'C12': ('droot', 'dflt_root', 'dflt_bytes'),
+    'C15': ('reads',),
+    'C16': ('obj',),
+}
+
+
+def compare_inh(pid, case, py, mo):
+    import json as _json
+    out = []
+    if py.get('p.fields') == 'err' and mo.get('i.fields') == 'err':
+        return []
+    if py.get('p.fields') != mo.get('i.fields'):
+        # the facts below are stated for the fields the library derives; when those differ from `Cls.fields` the tie is broken
+        return [F('corr', 'fields() of a container class hierarchy ~ Cls.fields (Rmk/Impl/ClassTree.lean)', py.get('p.fields'), mo.get('i.fields'))]
+    want = _INH_CHECKS.get(pid, ())
+    names = [kv.split(':')[0] for kv in mo['i.fields'].split(',')]
+    dflt = (py.get('p.dflt') or 'err').split('/')
+    val = (py.get('p.value') or 'err').split('/')
+    if len(dflt) != 3 or len(val) != 5:
+        return [F('prop', 'a container built by inheritance cannot be default-constructed / built / encoded / decoded / exported', '%s | %s' % (py.get('p.dflt'), py.get('p.value')), '')]
+    flags = val[4]
+    if 'sizes' in want:
+        if py.get('p.fixed') != mo['fixed']:
+            out.append(F('prop', 'is_fixed_byte_length (class hierarchy)', py.get('p.fixed'), mo['fixed']))
+        exp_flen = mo['flen'] if mo['fixed'] == '1' else 'err'
+        if py.get('p.flen') != exp_flen:
+            out.append(F('prop', 'type_byte_length (class hierarchy)', py.get('p.flen'), exp_flen))
+        if py.get('p.min') != mo['min']:
+            out.append(F('prop', 'min_byte_length (class hierarchy)', py.get('p.min'), mo['min']))
+        if py.get('p.max') != mo['max']:
+            out.append(F('prop', 'max_byte_length (class hierarchy)', py.get('p.max'), mo['max']))
+    if 'vbl' in want:
+        if val[2] != mo['s.len'] or dflt[2] != str(len(mo['s.zbytes']) // 2):
+            out.append(F('prop', 'value_byte_length (class hierarchy)', val[2] + '/' + dflt[2], mo['s.len']))
+    if 'droot' in want and py.get('p.droot') != mo['s.zroot']:
+        out.append(F('prop', 'default_node root (class hierarchy)', py.get('p.droot'), mo['s.zroot']))
+    if 'dflt_root' in want and dflt[0] != mo['s.zroot']:
+        out.append(F('prop', 'root of the default value (class hierarchy)', dflt[0], mo['s.zroot']))
+    if 'dflt_bytes' in want and dflt[1] != mo['s.zbytes']:
+        out.append(F('prop', 'encoding of the default value (class hierarchy)', dflt[1], mo['s.zbytes']))
+    if 'root' in want and val[0] != mo['s.root']:
+        out.append(F('prop', 'hash_tree_root (class hierarchy)', val[0], mo['s.root']))
+    if 'bytes' in want and val[1] != mo['s.bytes']:
+        out.append(F('prop', 'encode_bytes (class hierarchy)', val[1], mo['s.bytes']))
+    if 'stream' in want and flags[3] != '1':
+        out.append(F('prop', 'serialize(stream) differs from encode_bytes (class hierarchy)', flags, '1'))
+    if 'decode' in want and flags[1] != '1':
+        out.append(F('prop', 'decode_bytes(encode_bytes(x)) differs from x (class hierarchy)', flags, '1'))
+    if 'reads' in want and flags[4:7] != '111':
+        out.append(F('prop', 'field reads by attribute / iteration / generalized index disagree with the values stored (class hierarchy)', flags, '111'))
+    if 'obj' in want:
+        try:
+            exp = _json.loads(mo['s.obj'])
+            exp = [(names[i], exp['f%d' % i]) for i in range(len(names))]
+            got = list(_json.loads(val[3]).items())
+        except Exception:
+            exp, got = 0, 1
+        if exp != got or flags[0] != '1' or flags[2] != '1':
+            out.append(F('prop', 'to_obj / from_obj (class hierarchy)', val[3] + ' ' + flags, mo['s.obj']))
+    return out
+
+
+def _with_inh(cls):
+    g0, c0 = cls.generate, cls.compare
+
+    def generate(self, g, tier, focus=None):
+        out = g0(self, g, tier, focus)
+        return out + inh_cases(g, max(10, self.n(tier) // 25))
+
+    def compare(self, case, py, mo, stats):
+        if case[0] == 'inh':
+            bump(stats, 'kinds', 'inh')
+            return compare_inh(self.pid, case, py, mo)
+        return c0(self, case, py, mo, stats)
+    cls.generate, cls.compare = generate, compare
+
+
+for _c in (C01, C02, C03, C11, C12, C15, C16):
+    _with_inh(_c)
 
 
 REG = {}
